@@ -8,7 +8,7 @@ from props.util import configs, load
 
 LEVEL = 'other'
 
-INLINE_LOCK = lambda f, d, n: bool(re.search(r'^private::MutexIsh::<T>::locked$|\{closure#\d+\}$', f.defp))  # noqa: E731
+INLINE_LOCK = lambda f, d, n: True  # noqa: E731  (all local callees: lock wrapper, closures, extracted helpers)
 
 LIST_DENY = re.compile(r'(::take$|::clear$|::drain$|::pop$|::truncate$|mem::take$|mem::replace$|mem::swap$|::retain\w*$|::remove$|'
                        r'::swap_remove$|::split_off$|::dedup\w*$|::set_len$)')
@@ -89,12 +89,38 @@ def run(chk, tier):
         # ---- R08.3 append-only list
         acc = L.field_accesses(F, 'state::SharedState', 'panic_reasons')
         users = sorted(set(b.defp for b, _, _, _ in acc))
+        nlock = 0
         for u in users:
-            ok = bool(re.search(r'^(state::SharedState::new|state::SharedState::clone_panic_reasons|Unimock::induce_panic)$', u))
-            chk.ob('R08.3', 'panic_reasons is only touched by construction, the recording push and the read-out', ok, config=cfg, fn=u,
-                   site='field:panic_reasons', what='unexpected user of panic_reasons', found=u,
-                   expected='SharedState::new / clone_panic_reasons / Unimock::induce_panic')
-        chk.floor('R08.3', 'functions touching SharedState.panic_reasons', len(users), 3, config=cfg)
+            body = F.fns.get(u)
+            if body is None:
+                continue
+            constructs = any(k == 'construct' for b, _, k, _ in acc if b.defp == u)
+            for p in symex.Interp(F).run(body):
+                for e in p.effects:
+                    if e.kind != 'call' or not any(mentions_reasons(a) for a in e.data[2]):
+                        continue
+                    n = e.data[1]
+                    if re.search(r'^private::MutexIsh::locked$', n):
+                        nlock += 1
+                        c = strip(e.data[2][1])
+                        cf = F.fns.get(c[2]) if c[0] == 'agg' and c[1] == 'closure' else None
+                        if cf is None:
+                            chk.ob('R08.3', 'closure run on the recorded-error list is a closure literal', False, config=cfg, fn=body,
+                                   site='locked', what='opaque closure on panic_reasons', unrecognised=True, found=show(c))
+                            continue
+                        for cbb, ct in cf.calls(include_cleanup=True):
+                            cn = symex.callee_name(ct)
+                            if LIST_DENY.search(cn):
+                                chk.ob('R08.3', 'the recorded-error list is append-only', False, config=cfg, fn=cf, site='call:%s' % cn,
+                                       what='list shrinks/replaced: %s' % cn.rsplit('::', 1)[-1], found=cn, expected='push / clone / read-only access')
+                            else:
+                                okc = bool(re.search(r'(Vec::push$|Vec::extend\w*$|Clone>?::clone$|Vec::len$|Vec::is_empty$|::iter$|Deref>?::deref$|Vec::reserve$)', cn))
+                                chk.ob('R08.3', 'operation on the recorded-error list under the lock is known (%s)' % cn.rsplit('::', 1)[-1], okc,
+                                       config=cfg, fn=cf, site='call:%s' % cn, what='unknown list operation', unrecognised=True, found=cn)
+                    elif not re.search(r'(Deref>?::deref$|MutexIsh::new$)', n):
+                        chk.ob('R08.3', 'panic_reasons is only accessed through its lock', False, config=cfg, fn=body, site='call:%s' % n,
+                               what='unlocked access to panic_reasons', unrecognised=True, found=n, expected='MutexIsh::locked(..)')
+        chk.floor('R08.3', 'locked accesses to SharedState.panic_reasons', nlock, 2, config=cfg)
         cpr = F.fn('state::SharedState::clone_panic_reasons')
         for p in symex.Interp(F, inline=INLINE_LOCK).run(cpr):
             for e in p.calls():
